@@ -2460,7 +2460,7 @@ int _vnaproperty_yaml_export(vnaproperty_yaml_t *vymlp,
 	    yaml_scalar_style_t style = YAML_ANY_SCALAR_STYLE;
 
 	    if ((value = vnaproperty_get(root, ".")) == NULL) {
-		_vnaproperty_yaml_error(vymlp, VNAERR_INTERNAL,
+		_vnaproperty_yaml_error(vymlp, VNAERR_SYSTEM,
 			"%s: _vnaproperty_get: %s: %s",
 			__func__, vymlp->vyml_filename, strerror(errno));
 		return -1;
